@@ -3,9 +3,13 @@
    transcription of explicit_grid.rs / track_sizing.rs / alignment.rs, tied to the source by the bit-exact
    correspondence run over F32) with the THRESHOLD constants and the track-counting tables regenerated from the source
    (Gen/GridTracksGen.v).  Structure and counting theorems hold for every number structure; the numeric laws are
-   proved over the exact instance XQ with explicit finiteness premises. *)
+   proved over the exact instance XQ with explicit finiteness premises.
+   Stage 2: step 11.5 (resolve_intrinsic_track_sizes) is modelled in full in Model/GridIntrinsic.v (item batching, the
+   span-1 fast path, the six distribution steps, growth-limit variants, flex-crossing items) with the items' content
+   sizes as an oracle; theorems C09_intrinsic_* / C09_fixed_* / C09_gutters_*, proofs in Proofs/GridIntrinsicProofs.v. *)
 From Coq Require Import ZArith NArith QArith Bool List.
-From TV Require Import Num.Num Num.QNum Gen.GridTracksGen Model.GridTracks Proofs.GridTracksProofs.
+From TV Require Import Num.Num Num.QNum Gen.GridTracksGen Model.GridTracks Model.GridIntrinsic Proofs.GridTracksProofs
+  Proofs.GridIntrinsicProofs.
 Import ListNotations.
 
 (* ---- structure: gutter, (track, gutter)*; both outer gutters collapsed with zero sizing functions; every inner gutter
@@ -83,10 +87,11 @@ Theorem C09_fr_proportional_partial : forall (tracks : list (track XQ)) (S hp h 
   xeq (base_size (expand_one h t)) (x_mul (sfn_value (maxf t)) h).
 Proof. exact fr_proportional. Qed.
 
-(* ---- fixed tracks.  In maximise_tracks (11.6) a track whose limit equals its base size (every fixed track, every
-   gutter) ends within (G + 1) * THRESHOLD above it, G = number of tracks that can still grow when the step starts; and
-   exactly at it when no track can grow.  partial: step 11.5 is outside the model, and the bound is not 0. *)
-Theorem C09_fixed_exact_partial : forall inner avail (tracks : list (track XQ)) i t,
+(* ---- fixed tracks, step 11.6 alone.  In maximise_tracks a track whose limit equals its base size (every fixed track,
+   every gutter) ends within (G + 1) * THRESHOLD above it, G = number of tracks that can still grow when the step starts;
+   and exactly at it when no track can grow.  partial: the bound is not 0 (C09_fixed_exact_refuted); the statement about
+   the whole algorithm is C09_fixed_exact_partial below. *)
+Theorem C09_fixed_exact_maximise_partial : forall inner avail (tracks : list (track XQ)) i t,
   Forall (tok inner) tracks -> nth_error tracks i = Some t -> fixed_like t ->
   exists t', nth_error (maximise_tracks inner avail tracks) i = Some t' /\ finite (base_size t') /\
     (val (base_size t) <= val (base_size t') <= val (base_size t) + inject_Z (Z.of_nat (G inner tracks + 1)) * T_q)%Q /\
@@ -124,6 +129,175 @@ Theorem C09_distribute_terminates : forall inner n sp (tracks : list (track XQ))
   mloop inner fuel (Fin sp) tracks = mloop inner (n + 1) (Fin sp) tracks.
 Proof. intros. apply mloop_terminates; auto. Qed.
 
+(* ==================================================================================================================
+   Stage 2: step 11.5 in full *)
+
+(* ---- termination.  The batching loop (ItemBatcher) consumes at least one item per iteration: with `length items + 1`
+   units of fuel it ends by itself -- more fuel changes nothing.  Any number structure, any oracle.  The inner loops
+   are those of distribute_space_up_to_limits: C09_intrinsic_distribute_terminates below. *)
+Theorem C09_intrinsic_terminates : forall (T : Type) `{Num T} contrib inner avail (items : list (item T)) tracks k,
+  resolve_intrinsic_fuelled contrib inner avail (intrinsic_fuel items + k) items tracks
+  = resolve_intrinsic_track_sizes contrib inner avail items tracks.
+Proof. intros. apply intrinsic_terminates. Qed.
+
+(* ... and the inner loops: distribute_space_up_to_limits as 11.5 calls it -- any affected-filter, proportion 1 or the
+   flex factor, affected property base_size or growth-limit-or-base, limit growth_limit / fit-content-limited growth limit /
+   fit-content limit / +infinity (the `frame` premises: none of them reads item_incurred_increase; C09_distribute_frame) --
+   ends by itself within the fuel 2*len+8 of the model in exact arithmetic, provided (`wt`) the affected property is
+   finite, the incurred increase finite and >= 0, the proportion finite and >= 0, the limit finite or +infinity: every
+   iteration either exhausts the space or makes the growable track with the least head-room non-growable. *)
+Theorem C09_intrinsic_distribute_terminates : forall aff p prop limit,
+  (forall t x, aff (set_incurred t x) = aff t) -> (forall t x, p (set_incurred t x) = p t) ->
+  (forall t x, prop (set_incurred t x) = prop t) -> (forall t x, limit (set_incurred t x) = limit t) ->
+  forall sp (tracks : list (track XQ)) k, Forall (wt p prop limit) tracks ->
+  distribute_loop aff p prop limit (distribute_fuel tracks + k) (Fin sp) tracks
+  = distribute_loop aff p prop limit (distribute_fuel tracks) (Fin sp) tracks.
+Proof. intros aff p prop limit H1 H2 H3 H4 sp tracks k Hw. apply distribute_fuel_enough; assumption. Qed.
+
+Theorem C09_distribute_frame : forall inner : option XQ,
+  (forall (t : track XQ) x, base_size (set_incurred t x) = base_size t) /\
+  (forall (t : track XQ) x, limit_or_base (set_incurred t x) = limit_or_base t) /\
+  (forall (t : track XQ) x, growth_limit (set_incurred t x) = growth_limit t) /\
+  (forall (t : track XQ) x, fit_content_limited_growth_limit inner (set_incurred t x) = fit_content_limited_growth_limit inner t) /\
+  (forall (t : track XQ) x, fit_content_limit inner (set_incurred t x) = fit_content_limit inner t) /\
+  (forall (t : track XQ) x, flex_factor (set_incurred t x) = flex_factor t) /\
+  (forall (t : track XQ) x, is_flexible (set_incurred t x) = is_flexible t) /\
+  (forall (t : track XQ) x, minf (set_incurred t x) = minf t /\ maxf (set_incurred t x) = maxf t).
+Proof. exact frame_params. Qed.
+
+(* ---- 11.5 changes neither the length of the track vector nor any track's kind / sizing functions *)
+Theorem C09_intrinsic_structure : forall (T : Type) `{Num T} contrib inner avail (items : list (item T)) tracks,
+  Forall2 static_eq tracks (resolve_intrinsic_track_sizes contrib inner avail items tracks).
+Proof. intros. apply intrinsic_static. Qed.
+
+(* ---- monotone.  For EVERY oracle (NaN and infinite contributions included) and every item list: if no base size /
+   growth limit is NaN or -infinity and the scratch fields are not negative (`inv`: true of the output of 11.4), then
+   11.5 never decreases a base size; and if moreover base <= growth limit held before (true after 11.4), every growth
+   limit is >= its base size afterwards. *)
+Theorem C09_intrinsic_monotone : forall contrib inner avail (items : list (item XQ)) (tracks : list (track XQ)),
+  let res := resolve_intrinsic_track_sizes contrib inner avail items tracks in
+  (Forall inv tracks -> Forall inv res /\ Forall2 (fun t t' => x_leb (base_size t) (base_size t') = true) tracks res) /\
+  (Forall invJ tracks -> Forall (fun t' => x_leb (base_size t') (growth_limit t') = true) res).
+Proof.
+  intros contrib inner avail items tracks res. split.
+  - intro Hi. apply intrinsic_monotone. exact Hi.
+  - intro HJ. pose proof (intrinsic_limits_ge_base contrib inner avail (intrinsic_fuel items) items tracks HJ) as HR.
+    revert HR. apply Forall_impl. intros t [_ Hx]. exact Hx.
+Qed.
+
+(* the premises hold for what 11.4 produces from fresh tracks *)
+Example C09_intrinsic_monotone_premises : Forall invJ witness_c_before.
+Proof.
+  unfold witness_c_before. repeat constructor; vm_compute; intuition discriminate.
+Qed.
+
+(* ---- fixed tracks through 11.5.  `rigid`: both sizing functions are definite lengths (every gutter, every fixed track;
+   percentages when the container size is definite).  Such a track is never an affected track.  If every item whose track
+   range contains index i contains ONLY i (no item spanning several tracks covers it) then base size and growth limit of
+   track i stay exactly v: `calm v` = base size == v, growth limit == v, nothing incurred or planned. *)
+Theorem C09_intrinsic_preserves_fixed_partial :
+  forall contrib inner avail (items : list (item XQ)) (tracks : list (track XQ)) i v t,
+  (forall it, In it items -> alone it i) ->
+  nth_error tracks i = Some t -> rigid inner t -> calm v t ->
+  exists t', nth_error (resolve_intrinsic_track_sizes contrib inner avail items tracks) i = Some t' /\ rigid inner t' /\ calm v t'.
+Proof. intros contrib inner avail items tracks i v t Hal. apply (intrinsic_keeps_rigid contrib inner avail i v items Hal). Qed.
+
+(* ... and the proviso cannot be dropped: witness (c).  `minmax(min-content,50px) minmax(10px,10.008px) 100px`, gap 5, an
+   item of width 200 spanning the three columns, available space 100: 11.5 alone raises the fixed 100px track to 100.008
+   and both gutters to 5.008 ("distribute beyond limits" with `filter = |_| true` selects every spanned track; each
+   accepts an increase <= THRESHOLD) *)
+Theorem C09_intrinsic_preserves_fixed_refuted :
+  exists contrib inner avail (items : list (item XQ)) (tracks : list (track XQ)) i t,
+    Forall invJ tracks /\ nth_error tracks i = Some t /\
+    minf t = SLength (Fin 100) /\ maxf t = SLength (Fin 100) /\ calm 100 t /\
+    x_eqb (base_at (resolve_intrinsic_track_sizes contrib inner avail items tracks) i) (Fin (100008 # 1000)) = true.
+Proof.
+  exists witness_c_contrib, witness_c_inner, (Definite (Fin 100)), witness_c_items, witness_c_before, 5%nat.
+  eexists. split; [exact C09_intrinsic_monotone_premises|]. split; [vm_compute; reflexivity|].
+  split; [reflexivity|]. split; [reflexivity|]. split.
+  - unfold calm. cbn. repeat split; eexists; split; reflexivity.
+  - vm_compute. reflexivity.
+Qed.
+
+(* ---- precisely how a track at its limit (every fixed track, every gutter: limit = base size) moves: one iteration of
+   distribute_space_up_to_limits is a map of `bump` over the tracks, and a track whose affected property equals its limit
+   takes the iteration's increase iff it is selected by the affected-filter and 0 < increase <= THRESHOLD. *)
+Theorem C09_fixed_moves_only_through_threshold :
+  (forall aff p prop limit inc space (tracks : list (track XQ)),
+     snd (apply_increase aff p prop limit inc space tracks) = map (bump aff p prop limit inc) tracks) /\
+  (forall aff p prop limit inc (t : track XQ) b, prop t = Fin b -> limit t = Fin b ->
+     bump aff p prop limit inc t =
+     if aff t && x_ltb (Fin 0) (x_mul inc (p t)) && x_leb (x_mul inc (p t)) (Fin T_q)
+     then set_incurred t (x_add (incurred t) (x_mul inc (p t))) else t).
+Proof.
+  split; [intros; apply apply_increase_map|].
+  intros aff p prop limit inc t b Hp Hl. apply (bump_at_limit aff p prop limit inc t b Hp Hl).
+Qed.
+
+(* ---- the whole track_sizing_algorithm (11.4 - 11.8 with the full 11.5) on a track whose min and max sizing function are
+   the same definite length v and that no item spanning several tracks covers: its final size b satisfies
+   v <= b <= v + (2 * number of tracks + 8) * THRESHOLD, and b == v when the available space is not definite, or when no
+   track can grow when 11.6 starts.  partial: (1) without the covering proviso the size can leave v already in 11.5
+   (C09_intrinsic_preserves_fixed_refuted); (2) the bound is not 0 because of 11.6 (C09_fixed_exact_refuted); the sharper
+   (G + 1) * THRESHOLD of C09_fixed_exact_maximise_partial needs all sizes after 11.5 to be finite. *)
+Theorem C09_fixed_exact_partial :
+  forall contrib amin amax stretch avail inner (items : list (item XQ)) (tracks : list (track XQ)) i t v,
+  nth_error tracks i = Some t ->
+  minf t = maxf t -> definite_value inner (minf t) = Some (Fin v) ->
+  incurred t = Fin 0 -> base_planned t = Fin 0 -> limit_planned t = Fin 0 ->
+  (forall it, In it items -> alone it i) ->
+  exists t' b, nth_error (track_sizing_algorithm_full contrib amin amax stretch avail inner items tracks) i = Some t' /\
+    base_size t' = Fin b /\
+    (v <= b <= v + inject_Z (Z.of_nat (distribute_fuel tracks)) * T_q)%Q /\
+    ((forall s, avail <> Definite s) -> b == v)%Q /\
+    (G inner (after_intrinsic contrib avail inner items tracks) = 0%nat -> b == v)%Q.
+Proof.
+  intros contrib amin amax stretch avail inner items tracks i t v H1 H2 H3 H4 H5 H6 H7.
+  apply (fixed_exact_whole contrib amin amax stretch avail inner items tracks i t v H1 H2 H3 H4 H5 H6 H7).
+Qed.
+
+(* ---- gutters.  A gutter is a track of the vector whose min and max sizing function are the gap (C09_structure); for the
+   whole algorithm it therefore obeys C09_fixed_exact_partial: exact when no item spans across it and 11.6 has nothing to
+   grow / the space is indefinite ... *)
+Theorem C09_gutters_exact_partial :
+  forall contrib amin amax stretch avail inner (items : list (item XQ)) (tracks : list (track XQ)) i g gap v,
+  nth_error tracks i = Some g -> kind g = KGutter -> minf g = gap -> maxf g = gap ->
+  definite_value inner gap = Some (Fin v) ->
+  incurred g = Fin 0 -> base_planned g = Fin 0 -> limit_planned g = Fin 0 ->
+  (forall it, In it items -> ~ in_range it i) ->
+  exists g' b, nth_error (track_sizing_algorithm_full contrib amin amax stretch avail inner items tracks) i = Some g' /\
+    base_size g' = Fin b /\
+    (v <= b <= v + inject_Z (Z.of_nat (distribute_fuel tracks)) * T_q)%Q /\
+    ((forall s, avail <> Definite s) -> b == v)%Q /\
+    (G inner (after_intrinsic contrib avail inner items tracks) = 0%nat -> b == v)%Q.
+Proof.
+  intros contrib amin amax stretch avail inner items tracks i g gap v Hi _ Hmn Hmx Hv H1 H2 H3 Hal.
+  apply (fixed_exact_whole contrib amin amax stretch avail inner items tracks i g v); auto.
+  - congruence.
+  - rewrite Hmn. exact Hv.
+  - intros it Hin Hr. exfalso. apply (Hal it Hin Hr).
+Qed.
+
+(* ... and not otherwise: in witness (c) (whole algorithm, no free space in 11.6) both inner gutters crossed by the
+   spanning item end at 5.008 instead of the gap 5 *)
+Theorem C09_gutters_exact_refuted :
+  x_eqb (base_at witness_c 2) (Fin (5008 # 1000)) = true /\ x_eqb (base_at witness_c 4) (Fin (5008 # 1000)) = true /\
+  x_eqb (base_at witness_c 5) (Fin (100008 # 1000)) = true /\
+  (forall t, nth_error (q_tracks0 witness_c_template (SLength (Fin 5)) witness_c_inner) 2 = Some t ->
+             kind t = KGutter /\ minf t = SLength (Fin 5) /\ maxf t = SLength (Fin 5)).
+Proof.
+  split; [vm_compute; reflexivity|]. split; [vm_compute; reflexivity|]. split; [vm_compute; reflexivity|].
+  intros t Ht. vm_compute in Ht. inversion Ht; subst. repeat split.
+Qed.
+
+(* non-vacuity: a grid with intrinsic tracks and a spanning item in which everything is exact --
+   `100px auto min-content 30px`, gap 10, 400px: sizes 100 185 55 30, gutters 0 10 10 10 0, total 400 *)
+Example C09_example_intrinsic :
+  xq_eqb_list (q_sizes example_intrinsic) [Fin 100; Fin 185; Fin 55; Fin 30] = true /\
+  xq_eqb_list (q_gutters example_intrinsic) [Fin 0; Fin 10; Fin 10; Fin 10; Fin 0] = true /\
+  x_eqb (q_total example_intrinsic) (Fin 400) = true.
+Proof. vm_compute. repeat split; reflexivity. Qed.
+
 (* ---- non-vacuity *)
 Example C09_example_fill :
   xq_eqb_list (q_sizes example_fill) [Fin (230 # 3); Fin (460 # 3); Fin 50] = true /\
@@ -147,7 +321,18 @@ Print Assumptions C09_fr_fill.
 Print Assumptions C09_fr_terminates.
 Print Assumptions C09_fr_fill_refuted.
 Print Assumptions C09_fr_proportional_partial.
-Print Assumptions C09_fixed_exact_partial.
+Print Assumptions C09_fixed_exact_maximise_partial.
 Print Assumptions C09_fixed_exact_refuted.
 Print Assumptions C09_fixed_threshold_per_call_refuted.
 Print Assumptions C09_distribute_terminates.
+Print Assumptions C09_intrinsic_terminates.
+Print Assumptions C09_intrinsic_distribute_terminates.
+Print Assumptions C09_distribute_frame.
+Print Assumptions C09_intrinsic_structure.
+Print Assumptions C09_intrinsic_monotone.
+Print Assumptions C09_intrinsic_preserves_fixed_partial.
+Print Assumptions C09_intrinsic_preserves_fixed_refuted.
+Print Assumptions C09_fixed_moves_only_through_threshold.
+Print Assumptions C09_fixed_exact_partial.
+Print Assumptions C09_gutters_exact_partial.
+Print Assumptions C09_gutters_exact_refuted.
